@@ -15,3 +15,7 @@ import Signac.Properties.C03
 import Signac.Properties.C04
 import Signac.Properties.C11
 import Signac.Properties.C17
+import Signac.Cache
+import Signac.Properties.C08
+import Signac.Properties.C09
+import Signac.Properties.C16
